@@ -46,7 +46,61 @@ def el(l, idx):
     return ["el", l, idx, None]
 
 
-def gen_stmts(d, lists, scal):
+def fold_val(d, n, scal, depth, leaf_it):
+    """value expression over the scalars, the index, the current element and small literals (conditions of if/else
+    chains inside foreach: those built only from non-random operands are folded by the library before solving)"""
+    r = d.randint(0, 99)
+    if depth <= 0 or r < 45:
+        k = d.randint(0, 99)
+        if k < 35:
+            return ["f", d.choice(scal)]
+        if k < 60:
+            return ["iv", "i"]
+        if k < 80:
+            return leaf_it
+        return L(d.randint(0, 4))
+    op = d.choice(["+", "-", "&", "|", "^", "|", "&", "<<", ">>", "*"])
+    l = fold_val(d, n, scal, depth - 1, leaf_it)
+    if l[0] == "lit":
+        l = ["f", d.choice(scal)]
+    if op in ("<<", ">>"):
+        return ["bin", op, l, L(d.randint(0, 3))]
+    if op == "*":
+        return ["bin", op, l, L(d.randint(0, 3))]
+    return ["bin", op, l, fold_val(d, n, scal, depth - 1, leaf_it)]
+
+
+def fold_cond(d, n, scal, depth, leaf_it):
+    r = d.randint(0, 99)
+    if depth <= 0 or r < 70:
+        l = fold_val(d, n, scal, 2, leaf_it)
+        if l[0] == "lit":
+            l = ["f", d.choice(scal)]
+        return ["bin", d.choice(["==", "!=", "<", "<=", ">", ">="]), l, fold_val(d, n, scal, 1, leaf_it)]
+    if r < 80:
+        return ["not", fold_cond(d, n, scal, depth - 1, leaf_it)]
+    return ["bin", d.choice(["&", "|"]), fold_cond(d, n, scal, depth - 1, leaf_it), fold_cond(d, n, scal, depth - 1, leaf_it)]
+
+
+def fold_foreach(d, l, scal):
+    """foreach over l with an if / else-if / else chain whose conditions mix non-random scalars, the index, random
+    scalars and elements"""
+    n = l["name"]
+    emax = (1 << l["elem"]["w"]) - 1
+    leaf_it = el(n, ["iv", "i"])
+
+    def leafstmt():
+        return ["expr", ["bin", d.choice(["==", "!=", "<", "<=", ">", ">="]), leaf_it,
+                         L(d.randint(0, emax)) if d.chance(70) else ["f", d.choice(scal)]]]
+    arms = [[fold_cond(d, n, scal, 1, leaf_it), [leafstmt()]] for _ in range(d.randint(1, 3))]
+    els = [leafstmt()] if d.chance(50) else None
+    body = [["if", arms, els]]
+    if d.chance(30):
+        body.insert(0, leafstmt())
+    return ["foreach", n, "i", None, body]
+
+
+def gen_stmts(d, lists, scal, p_fold=12):
     """list-specific statement generator"""
     out = []
     names = [l["name"] for l in lists]
@@ -67,6 +121,9 @@ def gen_stmts(d, lists, scal):
         l = d.choice(lists)
         n = l["name"]
         emax = (1 << l["elem"]["w"]) - 1
+        if d.chance(p_fold):
+            out.append(fold_foreach(d, l, scal))
+            continue
         r = d.randint(0, 99)
         if r < 14:
             out.append(["foreach", n, None, "it", [["expr", ["bin", d.choice(["<", "<=", "!=", ">"]), ["it", "it"], L(d.randint(0, emax))]]]])
@@ -105,14 +162,19 @@ def gen_stmts(d, lists, scal):
     return out
 
 
-@hyp.composite
-def cases(d):
+def _cases(d, p_fold=12, no_randsz=False):
     lists = [gen_list(d, "l")]
     if d.chance(35):
         lists.append(gen_list(d, "m"))
+    if no_randsz:
+        for l in lists:
+            if l["mode"] == "randsz":
+                l["mode"] = "fixed"
+                l["size"] = d.randint(1, 3)
+                l["init"] = [0] * l["size"]
     fields = [{"name": "s0", "kind": "bit", "w": 3, "signed": False, "rand": True, "init": 0},
               {"name": "n0", "kind": "bit", "w": 3, "signed": False, "rand": False, "init": d.randint(0, 4)}]
-    stmts = gen_stmts(d, lists, ["s0", "n0"])
+    stmts = gen_stmts(d, lists, ["s0", "n0"], p_fold)
     ops = [["call", d.seed()]]
     for _ in range(d.randint(0, 5)):
         r = d.randint(0, 99)
@@ -134,6 +196,9 @@ def cases(d):
     ops.append(["call", d.seed()])
     cls = {"name": "T", "fields": fields, "lists": lists, "blocks": [{"name": "c0", "stmts": stmts}]}
     return {"prog": {"enums": {}, "classes": [cls]}, "ops": ops}
+
+
+cases = hyp.composite(_cases)
 
 
 def text_of(case):
@@ -287,6 +352,8 @@ def run_case(case):
            or (op[0] != "call" and len(op) < (2 if op[0] == "clear" else 3)) for op in case["ops"]):
         return [], {}
     stmts = cls["blocks"][0]["stmts"]
+    if not all(sem.well_formed(s) for s in stmts):
+        return [], {}
     types = {f["name"]: f for f in cls["fields"]}
     for l in lists:
         types[l["name"] + "[]"] = l["elem"]
